@@ -1031,7 +1031,8 @@ impl Parser {
             if let TokenKind::Diacritic(_) = self.curr_tkn.kind {
                 match inp_term.last() {
                     Some(Item { kind: _, position }) => return Err(RuleSyntaxError::UnexpectedDiacritic(*position, self.curr_tkn.position)),
-                    _ => { unreachable!(); }
+                    // an empty term (`a , , ʼ`): there is no element the diacritic could belong to, point at the comma before it
+                    None => return Err(RuleSyntaxError::UnexpectedDiacritic(self.token_list[self.pos-1].position, self.curr_tkn.position)),
                 }
             }
 
@@ -1079,7 +1080,8 @@ impl Parser {
             if let TokenKind::Diacritic(_) = self.curr_tkn.kind {
                 match out_term.last() {
                     Some(Item { kind: _, position }) => return Err(RuleSyntaxError::UnexpectedDiacritic(*position, self.curr_tkn.position)),
-                    _ => { unreachable!(); }
+                    // an empty term (`a , , ʼ`): there is no element the diacritic could belong to, point at the comma before it
+                    None => return Err(RuleSyntaxError::UnexpectedDiacritic(self.token_list[self.pos-1].position, self.curr_tkn.position)),
                 }
             }
 
